@@ -12,6 +12,7 @@ def run(facts, tier):
         ("binomial", B.binomial_rules, 4, "clamp shapes min(estimate, max(n, lb)) / max(estimate, ub); small-sample branches typed monotone in the tail probability"),
         ("bound shapes", B.hll_cpc_bound_shapes, 9, "HLL and CPC bound formulas: estimate / (1 +- eps), right table side, argument validated"),
         ("theta reset", theta_rules.builder_reset, 2, "reset() restores the starting theta (exactness below k after reuse)"),
+        ("cpc union folds", cpc_rules.union_rules, 3, "every row of the union's bit matrix survives a reduction of k: reduce_k folds all old rows into a fresh zeroed matrix through the row mask (an estimate computed from a matrix that lost rows is far outside its bounds)"),
         ("cpc window invariant", cpc_rules.window_invariants, 1, "no coupon is dropped by a first-interesting-column beyond the window (estimates are functions of the coupon count)"),
         ("union refresh", H.union_refresh, 6, "bounds of an HLL union are computed on refreshed state"),
     ):
